@@ -97,6 +97,25 @@ def translate():
     step("lateral_boundary/Write.time_hdr['SPAD']",
          lambda: lw.assign_expr('ncf2lateral_boundary', "time_hdr['SPAD']", 'lw_time_pad', [])[0])
     step('lateral_boundary/Write.date', lambda: lw.assign_expr('ncf2lateral_boundary', 'date', 'lw_date2', ['date'], index=0)[0])
+    # ---- one3d family (one3d / humidity / vertical_diffusivity): Memmap.py record arithmetic, Read.py seek arithmetic
+    om = mod('one3d/Memmap.py')
+    step('one3d/Memmap.__init__.__record_items',
+         lambda: om.assign_expr('one3d.__init__', 'record_items', 'om_record_items', ['rows', 'cols'])[0])
+    # time_steps = self.__records / lays : TRUE division (a float); createDimension truncates it with int()
+    step('one3d/Memmap.__init__.time_steps',
+         lambda: om.assign_expr('one3d.__init__', 'time_steps', 'om_time_steps', ['records', 'lays'], q=True)[0])
+    orr = mod('one3d/Read.py')
+    cx3 = P.Ctx(funcs=dict(cx.funcs), selffields=[], selfprefix='o3r')
+    body3 = []
+    for f in ['layerrecords', 'timerecords', 'recordposition']:
+        def g3(f=f):
+            body3.append(orr.function('one3d.' + f, 'o3r_' + f, cx3) + '\n')
+            return ''
+        step('one3d/Read.one3d.__' + f, g3)
+    out.append(P.self_record(cx3))
+    out.extend(body3)
+    step('one3d/Read.__readheader.padded_size',
+         lambda: orr.assign_expr('one3d.readheader', 'padded_size', 'o3r_padded_size_of', ['record_size'])[0])
     text = ''.join(out)
     P.write_if_changed(os.path.join(C.COQ, 'Gen', 'Camx.v'), text)
     return res
